@@ -3,6 +3,7 @@ CONSTANTS
   MaxTicks = 4
   ROSChoices = {TRUE, FALSE}
   RefOutcomes = {"nil", "err"}
+  CloseLate = FALSE
   AllowTBD = FALSE
-INVARIANTS WEmit OneRefreshPerTick ErrorsHandledOnce ScheduleConsulted SequentialNoRefreshAfterShutdown ShutdownResult
+INVARIANTS WEmit OneRefreshPerTick ErrorsHandledOnce ScheduleConsulted SequentialNoRefreshAfterShutdown DoneClosedFirst WindowNeverTicks ShutdownResult
 CHECK_DEADLOCK FALSE
